@@ -440,7 +440,6 @@ func c18msgList(c *Ctx, mod, tn string, fi int) {
 	}
 }
 
-
 // c18objRefuse: an element of an object list whose own Encode returns an error (in the messages: an element with
 // an over-long list or text one level down) must make the list writer return an error - a swallowed element error
 // is a truncated element followed by the rest, which decodes as something else.
